@@ -31,6 +31,8 @@ package gltf
 //@   requires attributeSize <= 4294967296
 //@   ensures still_ok: wOK(w) && w.bitW == old(w.bitW) && w.bitW.out == old(w.bitW.out)
 //@   ensures count_tracks_the_buffer: w.bitW.err == nil ==> written(w.bitW.out) - w.bytesWritten == old(written(w.bitW.out)) - old(w.bytesWritten)
+//@   ensures keeps_four_byte_alignment: old(w.bytesWritten) % 4 == 0 ==> w.bytesWritten % 4 == 0
+//@   ensures view_is_aligned_to_its_component: old(w.bytesWritten) % 4 == 0 ==> lastView(w).ByteOffset % lastAccessor(w).ComponentType.Size() == 0
 //@   ensures one_view_one_accessor: len(w.accessors) == old(len(w.accessors)) + 1 && len(w.bufferViews) == old(len(w.bufferViews)) + 1
 //@   ensures view_covers_the_new_bytes: lastView(w).ByteOffset == old(w.bytesWritten) && lastView(w).ByteOffset + lastView(w).ByteLength == w.bytesWritten && lastView(w).ByteLength >= 0
 //@   ensures accessor_points_at_the_view: lastAccessor(w).BufferView != nil && deref(lastAccessor(w).BufferView) == old(len(w.bufferViews)) && lastAccessor(w).Count == len(indices.data)
@@ -96,6 +98,9 @@ package gltf
 //@   requires written_component_types: accessorComponentType == AccessorComponentType_FLOAT || accessorComponentType == AccessorComponentType_UNSIGNED_BYTE
 //@   ensures still_ok: wOK(w) && w.bitW == old(w.bitW) && w.bitW.out == old(w.bitW.out)
 //@   ensures count_tracks_the_buffer: w.bitW.err == nil ==> written(w.bitW.out) - w.bytesWritten == old(written(w.bitW.out)) - old(w.bytesWritten)
+//@   ensures float_data_keeps_four_byte_alignment: old(w.bytesWritten) % 4 == 0 && accessorComponentType == AccessorComponentType_FLOAT ==> w.bytesWritten % 4 == 0
+//@   ensures byte_data_keeps_four_byte_alignment: old(w.bytesWritten) % 4 == 0 && accessorComponentType == AccessorComponentType_UNSIGNED_BYTE ==> w.bytesWritten % 4 == 0
+//@   ensures view_is_aligned_to_its_component: old(w.bytesWritten) % 4 == 0 ==> lastView(w).ByteOffset % lastAccessor(w).ComponentType.Size() == 0
 //@   ensures one_view_one_accessor: len(w.accessors) == old(len(w.accessors)) + 1 && len(w.bufferViews) == old(len(w.bufferViews)) + 1
 //@   ensures view_covers_the_new_bytes: lastView(w).ByteOffset == old(w.bytesWritten) && lastView(w).ByteOffset + lastView(w).ByteLength == w.bytesWritten && lastView(w).ByteLength >= 0
 //@   ensures accessor_points_at_the_view: lastAccessor(w).BufferView != nil && deref(lastAccessor(w).BufferView) == old(len(w.bufferViews)) && lastAccessor(w).Count == len(data.data)
@@ -117,6 +122,9 @@ package gltf
 //@   requires written_component_types: accessorComponentType == AccessorComponentType_FLOAT || accessorComponentType == AccessorComponentType_UNSIGNED_BYTE
 //@   ensures still_ok: wOK(w) && w.bitW == old(w.bitW) && w.bitW.out == old(w.bitW.out)
 //@   ensures count_tracks_the_buffer: w.bitW.err == nil ==> written(w.bitW.out) - w.bytesWritten == old(written(w.bitW.out)) - old(w.bytesWritten)
+//@   ensures float_data_keeps_four_byte_alignment: old(w.bytesWritten) % 4 == 0 && accessorComponentType == AccessorComponentType_FLOAT ==> w.bytesWritten % 4 == 0
+//@   ensures byte_data_keeps_four_byte_alignment: old(w.bytesWritten) % 4 == 0 && accessorComponentType == AccessorComponentType_UNSIGNED_BYTE ==> w.bytesWritten % 4 == 0
+//@   ensures view_is_aligned_to_its_component: old(w.bytesWritten) % 4 == 0 ==> lastView(w).ByteOffset % lastAccessor(w).ComponentType.Size() == 0
 //@   ensures one_view_one_accessor: len(w.accessors) == old(len(w.accessors)) + 1 && len(w.bufferViews) == old(len(w.bufferViews)) + 1
 //@   ensures view_covers_the_new_bytes: lastView(w).ByteOffset == old(w.bytesWritten) && lastView(w).ByteOffset + lastView(w).ByteLength == w.bytesWritten && lastView(w).ByteLength >= 0
 //@   ensures accessor_points_at_the_view: lastAccessor(w).BufferView != nil && deref(lastAccessor(w).BufferView) == old(len(w.bufferViews)) && lastAccessor(w).Count == len(data.data)
@@ -138,6 +146,9 @@ package gltf
 //@   requires written_component_types: accessorComponentType == AccessorComponentType_FLOAT || accessorComponentType == AccessorComponentType_UNSIGNED_BYTE
 //@   ensures still_ok: wOK(w) && w.bitW == old(w.bitW) && w.bitW.out == old(w.bitW.out)
 //@   ensures count_tracks_the_buffer: w.bitW.err == nil ==> written(w.bitW.out) - w.bytesWritten == old(written(w.bitW.out)) - old(w.bytesWritten)
+//@   ensures float_data_keeps_four_byte_alignment: old(w.bytesWritten) % 4 == 0 && accessorComponentType == AccessorComponentType_FLOAT ==> w.bytesWritten % 4 == 0
+//@   ensures byte_data_keeps_four_byte_alignment: old(w.bytesWritten) % 4 == 0 && accessorComponentType == AccessorComponentType_UNSIGNED_BYTE ==> w.bytesWritten % 4 == 0
+//@   ensures view_is_aligned_to_its_component: old(w.bytesWritten) % 4 == 0 ==> lastView(w).ByteOffset % lastAccessor(w).ComponentType.Size() == 0
 //@   ensures one_view_one_accessor: len(w.accessors) == old(len(w.accessors)) + 1 && len(w.bufferViews) == old(len(w.bufferViews)) + 1
 //@   ensures view_covers_the_new_bytes: lastView(w).ByteOffset == old(w.bytesWritten) && lastView(w).ByteOffset + lastView(w).ByteLength == w.bytesWritten && lastView(w).ByteLength >= 0
 //@   ensures accessor_points_at_the_view: lastAccessor(w).BufferView != nil && deref(lastAccessor(w).BufferView) == old(len(w.bufferViews)) && lastAccessor(w).Count == len(data.data)
@@ -151,3 +162,27 @@ package gltf
 //@     invariant 0 <= i && i <= len(data.data) && wOK(w) && w.bitW == old(w.bitW) && w.bitW.out == old(w.bitW.out) && w.bitW.buf == old(w.bitW.buf)
 //@     invariant w.bitW.err == nil ==> written(w.bitW.out) == old(written(w.bitW.out)) + 2 * i
 //@     invariant w.bytesWritten == old(w.bytesWritten) && w.accessors == old(w.accessors) && w.bufferViews == old(w.bufferViews)
+
+// GLB container: 12-byte header, JSON chunk padded with spaces to a multiple of four, optional BIN chunk padded
+// with zeros.  The declared total length is the number of bytes handed to the output.  "exit" clauses are
+// postconditions over the function's own locals at every return.
+
+// ToGLTF assembles the document from the writer's tables: it writes only memory it allocates (frame-only unit).
+//@ func Writer.ToGLTF frameonly
+//@   props C06
+
+//@ func Writer.WriteGLB
+//@   props C06
+//@   modifies *
+//@   returns err
+//@   exit chunk_lengths_are_multiples_of_four: err == nil ==> jsonByteLen % 4 == 0 && binByteLen % 4 == 0
+//@   exit padding_is_short: err == nil ==> 0 <= jsonPadding && jsonPadding < 4 && 0 <= binPadding && binPadding < 4
+//@   exit padded_lengths: err == nil ==> jsonByteLen == len(jsonBytes) + jsonPadding && binByteLen == len(binBytes) + binPadding
+//@   exit declared_total_is_what_was_written: err == nil ==> written(out) == old(written(out)) + totalLen
+//@   exit total_formula: err == nil ==> totalLen == 12 + 8 + jsonByteLen + (binByteLen > 0 ? 8 + binByteLen : 0)
+//@   loop 1:
+//@     invariant 0 <= i && i <= jsonPadding && bitWriter != nil && fresh(bitWriter) && len(bitWriter.buf) >= 8 && bitWriter.out == out
+//@     invariant bitWriter.err == nil ==> written(out) == old(written(out)) + 20 + len(jsonBytes) + i
+//@   loop 2:
+//@     invariant 0 <= i && i <= binPadding && bitWriter != nil && fresh(bitWriter) && len(bitWriter.buf) >= 8 && bitWriter.out == out
+//@     invariant bitWriter.err == nil ==> written(out) == old(written(out)) + 20 + jsonByteLen + 8 + len(binBytes) + i
